@@ -46,3 +46,9 @@ package utils
 //@   props C06
 //@   pure
 //@ end
+
+// the hash of a value is a function of the value (frame only, ASSUMED)
+//@ func (*CValueEnclosure).Hash
+//@   assumed
+//@   pure
+//@ end
